@@ -299,7 +299,15 @@ def judge (_id : String) (lines : Array String) : Verdict := Id.run do
       let some gid := unesc gid | return .badop l
       let some t := t.toInt? | return .badop l
       let some p := parseVec t vec | return .badop l
+      -- form w: the points feed a window node; the alert node sees the `wb` batches recorded under the window
+      if d.conf.form == "w" then d := { d with sawInput := true } else
       d := doPoint d k gid p
+    | ["wb", gid, tmax, pts] =>
+      let some gid := unesc gid | return .badop l
+      let some tmax := tmax.toInt? | return .badop l
+      let some pts := parseBatchPts pts | return .badop l
+      if d.conf.form != "w" then return .badop "wb line outside form w"
+      d := doBatch d k gid { tmax := tmax, pts := pts }
     | ["v", gid, t, v] =>
       let some gid := unesc gid | return .badop l
       let some t := t.toInt? | return .badop l
@@ -325,7 +333,7 @@ def judge (_id : String) (lines : Array String) : Verdict := Id.run do
         return .mismatch s!"events: model vs implementation: {detail}"
     | ["fwd"] =>
       let some observed := parseList obs | return .badop l
-      let batch := d.conf.form == "b"
+      let batch := d.conf.form == "b" || d.conf.form == "w"
       let sp := d.specOut.toList.map (renderFwd batch)
       let md := d.modelOut.toList.map (renderFwd batch)
       let nTail := if batch then 4 else 3
